@@ -65,6 +65,7 @@ class DataReader(object):
             self.lines[self.i] += line
 
     def from_recv_buffer(self):
+        self.size += len(self.io.recv_buffer)
         self.add_lines(self.io.recv_buffer)
         self.io.recv_buffer = b''
 
@@ -104,12 +105,29 @@ class DataReader(object):
             raise ConnectionLost()
 
         self.size += len(piece)
-        if self.max_size and self.size > self.max_size:
-            self.EOD = self.i
+        self.add_lines(piece)
+        self._check_size()
+        return self.EOD is None
+
+    def _check_size(self):
+        # The size of a message is the number of bytes received up to and
+        # including its End-Of-Data line, no matter how they were split into
+        # pieces or whether they had already been buffered. Bytes after the
+        # End-Of-Data line belong to the next command.
+        size = self.size
+        if self.EOD is not None:
+            size -= sum(len(line) for line in self.lines[self.EOD+1:])
+        if self.max_size and size > self.max_size:
             raise MessageTooBig()
 
-        self.add_lines(piece)
-        return self.EOD is None
+    def _discard_message(self):
+        # Reads the rest of a message that is too big, up to and including
+        # its End-Of-Data line, keeping only the line being received.
+        while self.EOD is None:
+            self.lines = self.lines[self.i:]
+            self.i = 0
+            self.add_lines(self.io.raw_recv())
+        self.io.recv_buffer = b''.join(self.lines[self.EOD+1:])
 
     def return_all(self):
         assert self.EOD is not None
@@ -126,11 +144,19 @@ class DataReader(object):
         """Receives all message data from the session.
 
         :rtype: bytes
+        :raises: :class:`~slimta.smtp.MessageTooBig` after the whole message
+                 has been read and discarded, so that the session continues
+                 with the command that follows it.
 
         """
         self.from_recv_buffer()
-        while self.recv_piece():
-            pass
+        try:
+            self._check_size()
+            while self.recv_piece():
+                pass
+        except MessageTooBig:
+            self._discard_message()
+            raise
         return self.return_all()
 
 
